@@ -967,9 +967,84 @@ def c18_traj(m, o):
     return {"checks": checks, "violations": viol}
 
 
+def c06(m, o):
+    """initial population recomputed from the definition: distribution x splits, then rebalances"""
+    from fractions import Fraction
+    prog = o["program"]
+    p = {k: float(Fraction(v)) for k, v in (o.get("params") or {}).items()}
+    viol, checks = [], 0
+    ev = lambda e: _pyexpr(e, p, 0.0, [])
+    dist = {}
+    arr = None
+    for x in prog["ops"]:
+        if x["op"] == "pop":
+            dist = {k: ev(v) for k, v in x["dist"].items()}
+        if x["op"] == "arraypop":
+            arr = [ev(e) for e in x["arr"]]
+    comps = [(c, ()) for c in prog["comps"]]
+    vals = [dist.get(c, 0.0) for c in prog["comps"]]
+    for x in prog["ops"]:
+        if x["op"] == "strat":
+            strata = [str(s_) for s_ in x["strata"]]
+            if x["kind"] == "age":
+                strata = [str(v) for v in sorted(int(s_) for s_ in strata)]
+            split = {k: ev(v) for k, v in (x.get("split") or {}).items()} or {s_: 1.0 / len(strata) for s_ in strata}
+            nc, nv = [], []
+            for (name, st), v in zip(comps, vals):
+                if name in x["comps"]:
+                    for s_ in strata:
+                        nc.append((name, st + ((x["name"], s_),)))
+                        nv.append(v * split[s_])
+                else:
+                    nc.append((name, st))
+                    nv.append(v)
+            comps, vals = nc, nv
+        elif x["op"] == "rebalance":
+            props = {k: ev(v) for k, v in x["props"].items()}
+            filt = dict(x.get("filt") or {})
+            groups = {}
+            for i, (name, st) in enumerate(comps):
+                d = dict(st)
+                if x["strat"] in d and all(d.get(k) == v for k, v in filt.items()):
+                    key = (name, tuple((k, v) for k, v in st if k != x["strat"]))
+                    groups.setdefault(key, []).append(i)
+            new = list(vals)
+            for key, idx in groups.items():
+                # the group = all compartments with that name and those other strata (any stratum of the rebalanced one)
+                members = [i for i, (name, st) in enumerate(comps)
+                           if name == key[0] and all(kv in st for kv in key[1])]
+                tot = sum(vals[i] for i in members)
+                for i in members:
+                    new[i] = tot * props[dict(comps[i][1])[x["strat"]]]
+            vals = new
+    exp = np.array(arr if arr is not None else vals, dtype=float)
+    names = [n + "".join("X%s_%s" % kv for kv in st) for n, st in comps]
+    got = m.get_initial_population(p)
+    checks += 1
+    if arr is None and list(got.index) != names:
+        viol.append("compartment labels %s, expected %s" % (list(got.index)[:6], names[:6]))
+    gv = np.asarray(got.values, dtype=float)
+    scale = 1 + np.abs(exp).max()
+    checks += 1
+    if gv.shape != exp.shape or np.abs(gv - exp).max() > 1e-9 * scale:
+        viol.append("initial population %s, the definition gives %s" % (np.round(gv, 8)[:8], np.round(exp, 8)[:8]))
+    runner = m.get_runner(p, jit=False)
+    ip = np.asarray(runner.impl_dict["one_step"](p).initial_population, dtype=float)
+    checks += 1
+    if ip.shape != exp.shape or np.abs(ip - exp).max() > 1e-9 * scale:
+        viol.append("one_step().initial_population differs from the definition")
+    for solver in ("euler", "rk4", "solve_ivp"):
+        m.run(p, solver=solver, jit=False, rebuild=True)
+        row0 = np.asarray(m.outputs, dtype=float)[0]
+        checks += 1
+        if row0.shape != exp.shape or np.abs(row0 - exp).max() > 1e-9 * scale:
+            viol.append("%s: row 0 of the outputs %s differs from the initial population %s" % (solver, np.round(row0, 8)[:6], np.round(exp, 8)[:6]))
+    return {"checks": checks, "violations": viol[:8]}
+
+
 ORACLES = {"c01": c01, "c02": c02, "c18": c18}
 MODEL_ORACLES = {"c02_traj": c02_traj, "c13": c13, "c12": c12, "c12_dates": c12_dates,
-                 "c07": c07, "c07_closed": c07_closed, "c16": c16, "c14": c14, "c08": c08, "c09": c09, "c10": c10, "c04": c04, "c18_traj": c18_traj}
+                 "c07": c07, "c07_closed": c07_closed, "c16": c16, "c14": c14, "c08": c08, "c09": c09, "c10": c10, "c04": c04, "c18_traj": c18_traj, "c06": c06}
 
 
 def run_oracle(m, o):
